@@ -68,6 +68,8 @@ type c11Env struct {
 	trace    []string
 	faultAt  int
 	faultK   string
+	fault2At int // second fault of a pair (thorough tier); -1 = none; always kind "error"
+	injected2 string
 	injected string
 	pre      map[string]c11RawState // "ds|key" → raw state at first touch
 	order    []string
@@ -158,6 +160,10 @@ func (e *c11Env) pre_(op *base.VerifOp, actor string) base.VerifDecision {
 	idx := e.opIndex
 	e.opIndex++
 	e.trace = append(e.trace, fmt.Sprintf("%d:%s(%s)", idx, op.Kind, c11KeyClass(op.Key)))
+	if idx == e.fault2At && idx != e.faultAt {
+		e.injected2 = fmt.Sprintf("error@%s(%s)", op.Kind, c11KeyClass(op.Key))
+		return base.VerifDecision{Action: base.VerifFailBefore, Err: errInjected}
+	}
 	if idx != e.faultAt {
 		return base.VerifDecision{}
 	}
@@ -194,7 +200,7 @@ func c11TakesCas(kind string) bool {
 func (e *c11Env) measure(at int, kind string, fn func() *TestResponse) (resp *TestResponse, trace []string, injected string, pre map[string]c11RawState) {
 	e.mu.Lock()
 	e.gid = base.VerifGoroutineID()
-	e.opIndex, e.trace, e.faultAt, e.faultK, e.injected = 0, nil, at, kind, ""
+	e.opIndex, e.trace, e.faultAt, e.faultK, e.injected, e.injected2 = 0, nil, at, kind, "", ""
 	e.pre, e.order = map[string]c11RawState{}, nil
 	e.mu.Unlock()
 	resp = fn()
@@ -563,7 +569,7 @@ func TestVerif_C11_Faults(t *testing.T) {
 	rt := NewRestTesterDefaultCollection(t, &RestTesterConfig{SyncFn: c11SyncFn, CustomTestBucket: vs.vtb})
 	defer rt.Close()
 	_ = rt.Bucket()
-	e := &c11Env{t: t, run: run, vs: vs, rt: rt, faultAt: -1}
+	e := &c11Env{t: t, run: run, vs: vs, rt: rt, faultAt: -1, fault2At: -1}
 	vs.SetFault(e.pre_)
 	vs.SetMid(func(op *base.VerifOp, actor string) error {
 		e.mu.Lock()
@@ -658,6 +664,59 @@ func TestVerif_C11_Faults(t *testing.T) {
 					run.Count("requests_failed_under_fault", 1)
 					if k != "timeout-applied" {
 						e.checkUnchanged(rq.Name, injected, before, observe(), pre, w)
+					}
+				}
+			}
+		}
+		// pairs of faults (thorough tier): the first fault is an error or a lost compare-and-swap, the second an error
+		if !run.Thorough() {
+			continue
+		}
+		for i := 0; i < len(trace); i++ {
+			opKind := strings.SplitN(strings.SplitN(trace[i], ":", 2)[1], "(", 2)[0]
+			for _, k := range []string{"error", "cas"} {
+				if k == "cas" && !c11TakesCas(opKind) {
+					continue
+				}
+				// the second fault position is counted in the faulted run's own trace, which may be longer than the fault-free one (retries)
+				for j := i + 1; j < len(trace)+4; j++ {
+					e.n++
+					do, observe, claims := rq.Prepare(e, e.n)
+					before := observe()
+					e.mu.Lock()
+					e.fault2At = j
+					e.mu.Unlock()
+					resp, ftrace, injected, pre := e.measure(i, k, do)
+					e.mu.Lock()
+					injected2 := e.injected2
+					e.fault2At = -1
+					e.mu.Unlock()
+					run.Eval()
+					if injected == "" || injected2 == "" {
+						run.Count("fault_pair_positions_not_reached", 1)
+						continue
+					}
+					run.Count("fault_pairs_injected", 1)
+					run.Nontrivial(fmt.Sprintf("%s|%s+%s|%d,%d", rq.Name, injected, injected2, i, j))
+					okf := resp.Code >= 200 && resp.Code < 300
+					both := injected + "+" + injected2
+					// a pair that contains one of the fault sites whose single fault already produces this effect is the same
+					// finding: name it by that site alone (otherwise every listed single-fault finding would reappear once per partner)
+					for _, culprit := range []string{"error@Set(user-email-index)", "error@SubdocInsert(user)", "error@SubdocInsert(role)"} {
+						if injected == culprit || injected2 == culprit {
+							both = culprit
+						}
+					}
+					w := map[string]any{"request": rq.Name, "faults": both, "fault_indexes": []int{i, j}, "status": resp.Code, "response": resp.Body.String(), "trace": ftrace}
+					sig := "C11|" + rq.Name + "|fault=" + both
+					if okf {
+						for _, c := range claims {
+							if good, detail := c.Chk(); !good {
+								run.Violation("read-back", sig+"|reported-success-but-not-visible", c.What+": "+detail, w)
+							}
+						}
+					} else {
+						e.checkUnchanged(rq.Name, both, before, observe(), pre, w)
 					}
 				}
 			}
